@@ -219,6 +219,13 @@ def stopOnAllowFailureChange (t : Task) : Option (Task → Bool) :=
 closure: a following Synchronization task with `executeHookOnSynchronization: false` is not merged
 either. Not used by the drivers until that change is in the tree. -/
 def stopOnAllowFailureChangeOrSkippedSync (t : Task) : Option (Task → Bool) :=
+  -- first disjunct: C01's repair (fourth wave) in the same closure — a Synchronization task is not
+  -- merged with a following task that is not a Synchronization (`isSynchronization` of the executed
+  -- task is captured by the closure)
+  some (fun tsk => (t.isSync && !tsk.isSync) || (tsk.isSync && !tsk.execOnSync) || tsk.allowFailure != t.allowFailure)
+
+/-- The closure before C01's repair: kept for the witness of the defect (`Props/C01`). -/
+def stopBeforeSyncBoundaryRepair (t : Task) : Option (Task → Bool) :=
   some (fun tsk => (tsk.isSync && !tsk.execOnSync) || tsk.allowFailure != t.allowFailure)
 
 /-- The part of `taskHandleHookRun` before the hook is run: returns the task as it is executed
